@@ -169,6 +169,29 @@ _VAR_RE = re.compile(r"\{\{-?\s*([^\W\d]\w*)\s*-?\}\}")
 _HEAD_RE = re.compile(r"(?:^|,)\s*([^\W\d]\w*)")
 
 
+EXCLUDED_LABEL = "excluded_folded_object_address"
+_ADDR_RE = re.compile(r" at 0x[0-9a-fA-F]+")
+
+
+def _folds_object_address(ast, env, nodes):
+    """Known finding (see known_findings.d/C30.json): an output expression that is constant and evaluates to an
+    object printed with Python's default repr (the iterator of ``[1]|reverse`` / ``|batch`` / ``|select``, the bound
+    method ``'a'.upper``) is folded into the generated source, memory address included.  True when the template has
+    such an output expression; these templates are excluded from the generated search."""
+    eval_ctx = nodes.EvalContext(env, None)
+    for out in ast.find_all(nodes.Output):
+        for child in out.nodes:
+            if isinstance(child, (nodes.TemplateData, nodes.Const, nodes.Name)):
+                continue
+            try:
+                text = str(child.as_const(eval_ctx))
+            except Exception:  # noqa: BLE001 - not a compile-time constant (Impossible) or not evaluable: not folded
+                continue
+            if _ADDR_RE.search(text):
+                return True
+    return False
+
+
 def classify(case):
     """-> (nontrivial, labels) from the source text and Jinja's parse tree."""
     import jinja2
@@ -193,6 +216,8 @@ def classify(case):
     except RecursionError:
         labels.add("does_not_parse")
         return False, labels
+    if _folds_object_address(ast, _env_for(o), nodes):
+        labels.add(EXCLUDED_LABEL)
     nt = False
     names = {n.name for n in ast.find_all(nodes.Filter)} | {"is " + n.name for n in ast.find_all(nodes.Test)}
     if len(names) >= 3:
@@ -267,16 +292,23 @@ def _verdict(case, per_seed, full):
     return ref
 
 
-def check_case(case):
+def check_case(case, judge_excluded=False):
+    nt, labels = classify(case)
+    if EXCLUDED_LABEL in labels and not judge_excluded:
+        raise core.Excluded()
     res = run_workers([case], "source", parallel=True)
     ref = _verdict(case, {s: res[s][0] for s in HASH_SEEDS}, True)
-    nt, labels = classify(case)
     if ref.startswith("!"):
         labels.add("compile_error_" + ref[1:].split(":")[0])
         nt = False
     else:
         labels.add("compiles")
     return core.Outcome(nt, sorted(labels))
+
+
+def check_known(entry):
+    """Known findings are replayed without the exclusion of their input class."""
+    return check_case(entry["case"], judge_excluded=True)
 
 
 def _mismatch(per_seed):
@@ -311,7 +343,8 @@ def _shrink(case, max_rounds=10):
         for j, c in enumerate(cands):
             per = {s: res[s][j] for s in HASH_SEEDS}
             if _mismatch(per) and not per[HASH_SEEDS[0]][0].startswith("!") and (best is None or len(c) < len(best)):
-                best = c
+                if EXCLUDED_LABEL not in classify({"source": c, "env": env})[1]:  # do not drift into the known finding
+                    best = c
         return best
 
     def ddmin(items, rounds):
@@ -351,6 +384,9 @@ def judge_batch(cases, rec):
         per = {s: res[s][i] for s in HASH_SEEDS}
 
         def one(c, per=per):
+            nt, labels = classify(c)
+            if EXCLUDED_LABEL in labels:
+                raise core.Excluded()
             if _mismatch(per):
                 small = _shrink(c)
                 try:
@@ -359,7 +395,6 @@ def judge_batch(cases, rec):
                     raise _Shrunk(small, v) from None
                 check_case(c)
                 raise core.Violation("digests of the generated source differ between hash seeds but the single-case run did not reproduce it: %r" % (c,))
-            nt, labels = classify(c)
             first = per[HASH_SEEDS[0]][0]
             if first.startswith("!"):
                 labels.add("compile_error_" + first[1:].split(":")[0])
